@@ -6,7 +6,7 @@ Require Import EV.model.Term EV.proofs.TermP EV.gen.Facts.
 
 Definition lad : ladder := {| t1 := ladder_t1; t2 := ladder_t2 |}.
 Lemma C11_cfg_ok : ladder_shape_ok = true /\ loss_epilogue_ok = true /\ loss_reads_raise_eof_with_text = true /\ t1 lad + t2 lad = 15 /\
-  pool_keep_pending = true /\ pool_mailbox_first = true.
+  pool_keep_pending = true /\ pool_mailbox_first = true /\ read_loops_exact = true /\ from_io_exact = true /\ loss_socket_reset_is_eof = true.
 Proof. repeat split; reflexivity. Qed.
 
 (* whatever the worker executes when its receiver sees EOF -- any number of tasks, ending at any time or never, in the
